@@ -454,6 +454,8 @@ class World(object):
                 if h is not None:
                     return h(it, args, kw)
                 raise OutOfSubset('int() of %r' % (v,))
+            if has_sym(list(args)[1:]):
+                raise OutOfSubset('int() with symbolic base')
             try:
                 return int(*args, **kw)
             except (ValueError, TypeError) as e:
